@@ -12,7 +12,7 @@ A disabled choice prunes the path (the same prefix followed by 9s is another pat
 After the explicit steps the harness drains (completes consumers oldest-first, fires
 timers) to reach the quiescent point at which end-to-end clauses are evaluated.
 """
-from engine.symutil import pick
+from engine.symutil import pick, decide
 
 STOP = 9
 
@@ -63,12 +63,14 @@ class Producer:
         return self.last
 
 
-def run_schedule(world, choices, producers, extra=None, after_step=None):
+def run_schedule(world, choices, producers, extra=None, after_step=None, allowed=tuple(range(10))):
     """Execute the explicit schedule.  Returns the number of steps executed.
     Raises Pruned on a disabled choice."""
     n = 0
     for c in choices:
-        c = pick(c, 0, 9)
+        c = decide(c, allowed)
+        if c is None:
+            raise Pruned()
         if c == STOP:
             break
         if c in (0, 1):
